@@ -242,7 +242,15 @@ fn scenarios(rng: &mut Rng) -> Vec<Scenario> {
         out.push(Scenario { family: "inherent-impl-on-foreign-type", proj: p, expect: Expect::Reject });
     }
     // 9. uses without import, in Main (the package exists and is imported by another library)
-    let use_forms: [(&str, String); 16] = [
+    let use_forms: [(&str, String); 21] = [
+        // type positions of DECLARATIONS (resolved in an earlier pass than function signatures and bodies): struct field,
+        // enum payload, trait method signature, extern function signature, generic struct field (added after a seeded
+        // change that gave the declaration pass the union of all files' imports)
+        ("struct-field-type", format!("struct Wrapper {{ inner: {}::S }}\n", d)),
+        ("enum-payload-type", format!("enum Slot {{ Full({}::S), Empty }}\n", d)),
+        ("trait-method-signature-type", format!("trait Uses {{\n    fn take(Self, {}::S) -> int32;\n}}\n", d)),
+        ("extern-signature-type", format!("extern \"go\" \"fmt\" \"Sprint\" show_s(x: {}::S) -> string\n", d)),
+        ("generic-struct-field-type", format!("struct Gw[T] {{ inner: T, other: {}::E }}\n", d)),
         // constructor / struct patterns as the only qualified names (the scrutinee comes from a function of the importing file)
         ("enum-pattern-only", format!("fn probe() -> int32 {{ match MKE {{ {}::E::A => 1, {}::E::B(k) => k }} }}\n", d, d)),
         ("struct-pattern-only", format!("fn probe() -> int32 {{ match MKD {{ {}::S {{ v: w }} => w }} }}\n", d)),
